@@ -36,12 +36,31 @@ K_MATRIX = "c19:matrix-subclass-lost-numpy2"
 
 
 def run_impl_cases(cases, timeout=1500):
-    rc, out, err = common.run_impl("c19_impl.py", input_text="\n".join(json.dumps(c) for c in cases) + "\n",
-                                   timeout=timeout, py=common.PYNP)
-    lines = [json.loads(l) for l in out.splitlines() if l.strip()]
-    if len(lines) != len(cases):
-        raise RuntimeError("c19_impl produced %d results for %d cases: %s" % (len(lines), len(cases), err[-2000:]))
-    return lines
+    """one child interpreter for the batch.  If the child dies (crash, kill) the case it died on gets that as its
+    outcome and the rest of the batch is run in a fresh child: a dead child is never the verdict of the run."""
+    results = []
+    rest = list(cases)
+    while rest:
+        try:
+            rc, out, err = common.run_impl("c19_impl.py", input_text="\n".join(json.dumps(c) for c in rest) + "\n",
+                                           timeout=timeout, py=common.PYNP)
+        except Exception as e:  # noqa  (timeout of the whole batch)
+            rc, out, err = -1, "", "%s: %s" % (type(e).__name__, e)
+        lines = []
+        for l in out.splitlines():
+            if l.strip():
+                try:
+                    lines.append(json.loads(l))
+                except ValueError:
+                    break
+        lines = lines[:len(rest)]
+        results.extend(lines)
+        if len(lines) == len(rest):
+            break
+        results.append({"harness_error": "the child interpreter died on this case (exit status %s)" % rc,
+                        "tb": err[-600:]})
+        rest = rest[len(lines) + 1:]
+    return results
 
 
 def run_parallel(cases, workers=None):
